@@ -469,7 +469,7 @@ def aten_any(self: TTensor) -> BOOL:
         # op.ReduceMax() in the next step cannot process BOOL inputs, so convert to INT64
         self_int = op.Cast(self_bool, to=INT64.dtype)
         any_true = op.ReduceMax(self_int, keepdims=False)
-        result = op.Cast(any_true, to=BOOL.dtype)
+        result = op.Greater(any_true, op.Constant(value_int=0))
     return result
 
 
@@ -483,7 +483,7 @@ def aten_any_dim(self: TTensor, dim: int, keepdim: bool = False) -> BOOL:
     # Change dim from int to INT64[1]
     dims = op.Reshape(dim, op.Constant(value_ints=[-1]))
     any_true = op.ReduceMax(self_int, dims, keepdims=keepdim)
-    return op.Cast(any_true, to=BOOL.dtype)
+    return op.Greater(any_true, op.Constant(value_int=0))
 
 
 @torch_op("aten::any.dims", trace_only=True)
@@ -506,7 +506,7 @@ def _aten_any_dims_no_dim(self: TTensor, keepdims: bool) -> BOOL:
         self_bool = op.Cast(self, to=BOOL.dtype)
         self_int = op.Cast(self_bool, to=INT64.dtype)
         any_true = op.ReduceMax(self_int, keepdims=keepdims)
-        result = op.Cast(any_true, to=BOOL.dtype)
+        result = op.Greater(any_true, op.Constant(value_int=0))
     return result
 
 
